@@ -36,6 +36,7 @@ type concSpec struct {
 	Jobs   []opSpec `json:"jobs"`
 	Labels []label  `json:"labels"` // nil: draw a schedule
 	Class  string   `json:"class,omitempty"`
+	Hold   int      `json:"hold,omitempty"` // class backlog/: the job whose store callback the worker is held in
 }
 
 type sig struct {
@@ -728,6 +729,25 @@ func runConcMode(s *concSpec, r *rand.Rand, prefixOnly bool) (out []labelObs, en
 			if forceStop {
 				opts = append(opts, opt{label{Kind: "stop"}, 1})
 			}
+			if s.Class == "backlog/" {
+				// serve the first jobs one by one, hold the worker inside a store callback of job Hold, queue everything else
+				// behind it (each call is seen to be queued before the next is made), then let the worker run
+				opts = opts[:0]
+				held := false
+				for _, w := range ws {
+					if p := c.parked[w]; p.job == s.Hold && p.w < 0 {
+						held = true
+					}
+				}
+				switch {
+				case more && next <= s.Hold && len(ws) > 0:
+					opts = append(opts, opt{label{Kind: "step", W: ws[0]}, 1})
+				case more && (next <= s.Hold || held):
+					opts = append(opts, opt{label{Kind: "call", Job: next}, 1})
+				case len(ws) > 0:
+					opts = append(opts, opt{label{Kind: "step", W: ws[r.Intn(len(ws))]}, 1})
+				}
+			}
 			if wantStop && !stopped && ncalled > len(s.Jobs)/2 {
 				opts = append(opts, opt{label{Kind: "stop"}, 1})
 			}
@@ -1144,4 +1164,43 @@ func genStopDrain(r *rand.Rand) *concSpec {
 		jobs = append(jobs, opSpec{Op: opGet, K: k, Faults: []int{1}})
 	}
 	return &concSpec{G: g, Jobs: jobs, Class: "stopdrain/"}
+}
+
+
+// Deep backlog on one worker: a few jobs are served, the worker is then held inside a store callback, b further requests
+// for keys of that worker are queued behind it one at a time (b around the powers of two), and the worker is let go:
+// per key the store callbacks must come in the order the requests were queued.  Most of the backlog are deletes whose
+// callback fails (one call each, nothing changes), so that the log stays short.
+func genBacklog(r *rand.Rand, b int) *concSpec {
+	g := grpSpec{Wrapped: true, N: []int{1, 1, 3}[r.Intn(3)], Cap: -1, Kind: []int{kInt, kInt64, kUInt32, kInt64CRC, kString}[r.Intn(5)]}
+	// keys of one worker
+	var w0 = -1
+	for k := int64(1); len(g.Univ) < 2 && k < 400; k++ {
+		if w := route(&g, k); w0 < 0 || w == w0 {
+			w0 = w
+			g.Univ = append(g.Univ, k)
+		}
+	}
+	for _, k := range g.Univ {
+		g.InitL = append(g.InitL, [2]int64{k, int64(1 + r.Intn(90))})
+	}
+	hot := g.Univ[0]
+	jobs := []opSpec{}
+	h := []int{1, 3, 7}[r.Intn(3)]
+	for i := 0; i < h; i++ {
+		jobs = append(jobs, opSpec{Op: opDelete, K: g.Univ[i%len(g.Univ)], Faults: []int{1}})
+	}
+	jobs = append(jobs, opSpec{Op: opUpdate, K: hot, D: int64(r.Intn(100))}) // the job the worker is held in (at its load)
+	for i := 0; i < b; i++ {
+		k := g.Univ[r.Intn(len(g.Univ))]
+		switch r.Intn(12) {
+		case 0:
+			jobs = append(jobs, opSpec{Op: opUpdate, K: k, D: int64(r.Intn(100))})
+		case 1:
+			jobs = append(jobs, opSpec{Op: opUpsertRenew, K: k, D: int64(r.Intn(100))})
+		default:
+			jobs = append(jobs, opSpec{Op: opDelete, K: k, Faults: []int{1}})
+		}
+	}
+	return &concSpec{G: g, Jobs: jobs, Class: "backlog/", Hold: h}
 }
